@@ -180,6 +180,29 @@ def showShape : Shape → String
   | .multipatch b ps => "multipatch " ++ showBBox .xyzm b ++ " " ++ toString ps.length ++
       String.join (ps.map fun r => " " ++ showKind r.1 ++ " " ++ showPts .xyzm r.2)
 
+/-- role-free rendering (the form the specification-side expectation uses) -/
+def flatShape : Shape → String
+  | .null => "null"
+  | .point d p => "pt 1 " ++ showPt d p
+  | .multipoint d b ps => "box " ++ showBBox d b ++ " parts 1 - " ++ showPts d ps
+  | .polyline d b parts => "box " ++ showBBox d b ++ " parts " ++ toString parts.length ++
+      String.join (parts.map fun ps => " - " ++ showPts d ps)
+  | .polygon d b rings => "box " ++ showBBox d b ++ " parts " ++ toString rings.length ++
+      String.join (rings.map fun r => " - " ++ showPts d r.2)
+  | .multipatch b ps => "box " ++ showBBox .xyzm b ++ " parts " ++ toString ps.length ++
+      String.join (ps.map fun r => " " ++ showKind r.1 ++ " " ++ showPts .xyzm r.2)
+
+def showROutFlat : ROut → String
+  | .shape s => "ok " ++ flatShape s
+  | .none => "none"
+  | .err e => "err " ++ (match e with
+      | .io => "io" | .fileCode c => s!"filecode {c}" | .shapeType c => s!"shapetype {c}"
+      | .patchType c => s!"patchtype {c}" | .mismatch r a => s!"mismatch {r.name} {a.name}"
+      | .recSize => "recsize" | .noIndex => "noindex")
+  | .unit => "unit"
+  | .count n => s!"count {n}"
+  | .panic s => "panic " ++ s
+
 def showErr : Err → String
   | .io => "io"
   | .fileCode c => s!"filecode {c}"
